@@ -18,7 +18,9 @@ def model_versions(rng, big):
 
     def fresh_idx():
         while True:
-            v = rng.randrange(2, 0x7ff0)
+            v = rng.randrange(2, 0x7ff0) if rng.random() > 0.08 else rng.choice([0, 1])     # the reserved indexes can be listed too
+            if v == 1 and rng.random() < 0.5:
+                continue
             if v not in used:
                 used.add(v)
                 return v
